@@ -42,6 +42,16 @@ def cases(rng, tier):
         else:
             lines = T.rand_config(rng, 8, False, None)
         ops = E.rand_ops(rng, rng.choice([1, 2, 3, 5, 8]), auto)
+        if rng.random() < 0.2:
+            # the same payload inserted an even / odd number of times with no commit in between, then a search:
+            # a checkpoint in which equal contributions cancel would let the search through
+            txt = rng.choice(E.PAYLOADS)
+            reps = rng.choice([2, 2, 3, 4])
+            if rng.random() < 0.6:
+                burst = [["ins", rng.choice([0, 1, 2, -1, 99]), txt] for _ in range(reps)]
+            else:
+                burst = [["commit"]] + [["atf", rng.randrange(64), txt.lstrip() or "x", -1, True] for _ in range(reps)]
+            ops = burst + [["probe"]] + ops if not auto else ops + burst + [["probe"]]
         ops += [["commit"], ["commit"], ["probe"]]
         yield E.mk_case(syntax, ign, auto, lines, ops)
 
